@@ -5,7 +5,7 @@ properties talk about."""
 import argparse
 
 from vlib.stubs.strat import (Decider, Oracle, RequiredTokensOracle,
-                              ConsistentNumeralsOracle,
+                              ConsistentNumeralsOracle, SameShapeOracle,
                               HashClassOracle, FakeMP,
                               tokens)
 
@@ -39,7 +39,20 @@ SCRIPTS['g'] = ('(set-logic QF_BV)(declare-const x (_ BitVec 4))'
 SCRIPTS['h'] = ('(declare-fun f0 (Bool) Bool)(declare-const p Bool)' + ''.join(
     f'(assert (f{i} p))' for i in range(10)) + '(check-sat)')
 
+# a pickle of more than 1 KiB; same-length replacements (x -> 0) far from its
+# beginning
+SCRIPTS['k'] = ('(declare-const x Int)' + ''.join(
+    f'(assert (> (+ x {i}) x))' for i in range(10, 22)) + '(check-sat)')
+
+# datatypes with several nullary constructors (default constants of a
+# datatype sort come from a table filled while collecting information)
+SCRIPTS['m'] = ('(declare-datatype Color ((red) (green) (blue) (black) '
+                '(mix (fst Color) (snd Color))))(declare-const c Color)'
+                '(declare-const d Color)(assert (= c (mix d d)))'
+                '(assert (distinct c d))(check-sat)')
+
 MUTSETS = {
+    'consts': ['Constants'],
     'late': ['SimplifySymbolNames', 'ReplaceByVariable'],
     'arith': ['ArithmeticSimplifyConstant'],
     'fresh': ['Constants', 'IntroduceFreshVariable'],
@@ -74,7 +87,9 @@ def _namespace(strategy, jobs, mutset, outfile, pretty=False, wrap=False):
         _PRISTINE = options.parse_options(mutators,
                                           ['in.smt2', 'out.smt2', 'cmd'])
     ns = argparse.Namespace(**dict(vars(_PRISTINE)))
-    enabled = set(MUTSETS[mutset])
+    enabled = set(MUTSETS[mutset]) if mutset != 'all' else {
+        cls for g, (mod, reg) in mutators.get_all_mutators().items()
+        for cls in reg}
     for g, (mod, reg) in mutators.get_all_mutators().items():
         setattr(ns, f'mutators_{g}', True)
         for cls, opt in reg.items():
@@ -99,6 +114,8 @@ KEYS = {
     'f': ['ca', 'a', 'b', '>', 'check-sat', 'Int'],
     'g': ['x', 'y', 'p', 'q', 'xor', 'bvcomp'],
     'h': ['f1', 'f4', 'f8', 'f9', 'check-sat', 'declare-const'],
+    'k': ['x', '12', '17', '21', '>', '+'],
+    'm': ['c', 'd', 'mix', 'distinct', '=', 'check-sat'],
 }
 
 
@@ -127,6 +144,8 @@ def setup(decider, strategy, jobs, nbits, script, mutset, maxwrites=12,
     elif oracle == 'same':
         env.oracle = ConsistentNumeralsOracle(decider, KEYS[script],
                                               env.orig)
+    elif oracle == 'shape':
+        env.oracle = SameShapeOracle(decider, KEYS[script], env.orig)
     else:
         env.oracle = RequiredTokensOracle(decider, KEYS[script], env.orig)
     env.mp = FakeMP(decider, prefetch)
@@ -143,6 +162,8 @@ def setup(decider, strategy, jobs, nbits, script, mutset, maxwrites=12,
     def norm(t):
         # known finding C18-fresh-name-node-id: fresh symbols carry node ids
         return _FRESH.sub('x#__fresh', t) if norm_fresh else t
+
+    env.norm = norm
 
     def check_exprs(exprs):
         t = norm(tokens(exprs))
@@ -259,7 +280,11 @@ def check_fixed_point(env, final):
     from ddsmt import strategy_hierarchical, smtlib
     from ddsmt.mutator_utils import apply_simp, Simplification
     from ddsmt import mutators as _mutators
-    final = list(final)
+    # as a second run of ddSMT on the written output would see it: parsed
+    # anew, so every position has its own identity whatever the strategy's
+    # bookkeeping of node ids did
+    from ddsmt import nodeio
+    final = list(nodeio.parse_smtlib(nodeio.write_smtlib_to_str(list(final))))
     smtlib.collect_information(final)
     # every enabled mutator, taken from the registries (not from the pass
     # lists of the strategy under test)
@@ -276,7 +301,7 @@ def check_fixed_point(env, final):
             if not n.is_leaf():
                 nxt.extend(n.data)
         level = nxt
-    ft = tokens(final)
+    ft = env.norm(tokens(final))
     for node in order:
         for m in muts:
             try:
@@ -297,7 +322,7 @@ def check_fixed_point(env, final):
                     continue
                 if res is None:
                     continue
-                t = tokens(res if isinstance(res, list) else [res])
+                t = env.norm(tokens(res if isinstance(res, list) else [res]))
                 if env.oracle.verdict(t):
                     return (f'the run ended with {ft!r}, but "{m}" on '
                             f'{node.__str__()!r} proposes {t!r}, which the '
